@@ -1,5 +1,5 @@
 (* C14 -- dropna: the keep mask of TypeBlocks.dropna_to_keep_locations equals the specification, except for the
-   single-1-D-block frame on axis 1 (finding C14-dropna-axis1-single-1d-block, Refuted/C14.v). *)
+   single-1-D-block frame on axis 1 with the decision reshaped = false (the code before /repo 35bd018; witness below). *)
 Require Import SF.Prelude SF.Value SF.Missing SF.MissingCheck.
 
 Lemma transpose_map {X Y} (f : X -> Y) n : forall lines : list (list X),
@@ -40,3 +40,8 @@ Proof.
 Qed.
 
 End Drop.
+
+(* with the old decision the guard is necessary: one column [1; NaN] as a single 1-D block, axis 1 *)
+Example old_dropna_decision_needs_guard :
+  M_dropna_keep false true true 2 true (map (map is_missing) [[Some 1; None]]) <> S_keep true true 2 [[Some 1; @None Z]].
+Proof. vm_compute. discriminate. Qed.
